@@ -11,7 +11,7 @@ for f in sorted(glob.glob(os.path.join(src, "*.json"))):
         continue
     new = json.load(open(f))
     old = json.load(open(dst)) if os.path.exists(dst) else {}
-    for k in ("origin", "needs_to_manifest"):
+    for k in ("origin", "needs_to_manifest", "control", "property_holds"):
         if k in old and k not in new:
             new[k] = old[k]
     # replay paths inside snapshots are meaningless outside them
